@@ -554,11 +554,29 @@ class _AdbIOManagerAsync(object):
         """
         packed = msg.pack()
         _LOGGER.debug("bulk_write(%d): %r", len(packed), packed)
-        await self._transport.bulk_write(packed, adb_info.transport_timeout_s)
+        await self._write_all(packed, adb_info)
 
         if msg.data:
             _LOGGER.debug("bulk_write(%d): %r", len(msg.data), msg.data)
-            await self._transport.bulk_write(msg.data, adb_info.transport_timeout_s)
+            await self._write_all(msg.data, adb_info)
+
+    async def _write_all(self, data, adb_info):
+        """Write all of ``data`` to the device, calling ``bulk_write`` again if the transport only accepted part of it.
+
+        Parameters
+        ----------
+        data : bytes, bytearray
+            The data that will be sent
+        adb_info : _AdbTransactionInfo
+            Info and settings for this ADB transaction
+
+        """
+        view = memoryview(data)
+        while len(view) > 0:
+            sent = await self._transport.bulk_write(bytes(view), adb_info.transport_timeout_s)
+            if not isinstance(sent, int) or sent >= len(view):
+                break
+            view = view[max(sent, 0):]
 
 
 class AdbDeviceAsync(object):
